@@ -81,16 +81,21 @@ pub fn catch<F: FnOnce() -> String>(f: F) -> String {
 pub struct Out {
     w: BufWriter<std::io::Stdout>,
     pub n: u64,
+    flush_each: bool,
 }
 
 impl Out {
     pub fn new() -> Self {
-        Out { w: BufWriter::with_capacity(1 << 20, std::io::stdout()), n: 0 }
+        Out { w: BufWriter::with_capacity(1 << 20, std::io::stdout()), n: 0, flush_each: std::env::var("KH_FLUSH").is_ok() }
     }
     /// one transcript line: request, implementation result, oracle (std) result, scope tag
     pub fn emit(&mut self, req: &str, imp: &str, oracle: &str, in_scope: bool) {
         self.n += 1;
         writeln!(self.w, "{}\t{}\t{}\t{}", req, imp, oracle, if in_scope { "in" } else { "out" }).unwrap();
+        if self.flush_each {
+            // crash-localisation mode: the last line on stdout is the last request that completed
+            self.w.flush().unwrap();
+        }
     }
     pub fn finish(mut self) {
         self.w.flush().unwrap();
